@@ -19,7 +19,10 @@ META = {
     "quick_s": 70, "thorough_s": 600,
 }
 
-THEOREMS = ["relate_sound", "teq_sound_in_models", "relate_complete_partial"]
+THEOREMS = ["relate_sound", "relate_sound_any_variance", "teq_sound_in_models", "teqm_sound_in_models",
+            "relate_complete_partial", "relate_complete_matching", "relate_complete_two_sided",
+            "relate_unifiers_exact", "relate_nosol_no_unifier",
+            "relate_complete_numeric_scalar", "relate_complete_numeric_var_var", "relate_complete_general_numeric"]
 
 I, CO, CONTRA = "Invariant", "Covariant", "Contravariant"
 
